@@ -173,6 +173,107 @@ def ob_simple_plan(cx):
     cx.observe("plan", [(k, nps) for k, (_new, nps) in items])
 
 
+def ob_transpose_plan(cx):
+    """generate_transpose_plan: some revisions of a history (symbolic ids and parents, as above) are replaced by given new
+    revisions; the plan must rewrite exactly their descendants, and every new parent must be a revision that stays, the
+    replacement of a replaced revision, or the new id of a revision the plan rewrites - never an id nothing produces."""
+    R = cx.mod(RB)
+    T = cx.truth
+    n = cx.choose("nrevs", 1, cx.p("nrevs"))
+    revs, parents = [], []
+    for i in range(n):
+        r = cx.bytes("rev%d" % i, 1, b"pqrs")
+        for o in revs:
+            cx.assume(o[0] < r[0])               # listed in id order; ids distinct
+        ps = []
+        for j in range(cx.choose("nparents%d" % i, 1, 2)):
+            p = cx.bytes("parent%d_%d" % (i, j), 1, b"Bpqrs")
+            cx.assume(p[0] < r[0])               # acyclic
+            for o in ps:
+                cx.assume(o != p)
+            ps.append(p)
+        revs.append(r)
+        parents.append(ps)
+    for ps in parents:
+        for p in ps:
+            cx.assume(T(p == BASE) or any(T(p == r) for r in revs))
+    # which revisions are replaced, and in which order the caller's mapping lists them
+    nren = cx.choose("nrenames", 1, min(2, n))
+    ren_idx = []
+    for k in range(nren):
+        i = cx.choose("renamed%d" % k, 0, n - 1)
+        if i in ren_idx:
+            cx.assume(False)
+        ren_idx.append(i)
+    targets = {i: b"R%d" % i for i in ren_idx}
+    pairs = [(revs[i], targets[i]) for i in ren_idx]
+    if cx.sym:
+        from symx.containers import SymDict
+        renames = SymDict(pairs)
+    else:
+        renames = dict(pairs)
+
+    class Graph:
+        @staticmethod
+        def get_parent_map(keys):
+            return {k: (BASE,) for k in keys}
+
+    class PB:
+        def update(self, *a):
+            pass
+
+        def finished(self):
+            pass
+
+    class UI:
+        class ui_factory:
+            nested_progress_bar = staticmethod(lambda: PB())
+    R.ui = UI
+    ancestry = [(BASE, ())] + [(r, tuple(ps)) for r, ps in zip(revs, parents)]
+    plan = R.generate_transpose_plan(ancestry, renames, Graph, lambda old, ps: b"N" + old)
+    items = list(plan.items())
+
+    def idx(x):
+        for i, r in enumerate(revs):
+            if T(r == x):
+                return i
+        return None
+    rewritten = []                                 # indices, parents first
+    for i in range(n):
+        if i in ren_idx:
+            continue
+        if any(idx(p) is not None and (idx(p) in ren_idx or idx(p) in rewritten) for p in parents[i]):
+            rewritten.append(i)
+
+    def mapped(p):
+        j = idx(p)
+        if j is None:
+            return p
+        if j in ren_idx:
+            return targets[j]
+        if j in rewritten:
+            return b"N" + revs[j]
+        return p
+    cx.require(len(items) == len(rewritten), "the plan rewrites %d revisions, %d revisions descend from a replaced one" %
+               (len(items), len(rewritten)))
+    for i in rewritten:
+        entry = [v for k, v in items if T(k == revs[i])]
+        cx.require(len(entry) == 1, "a descendant of a replaced revision is missing from the plan")
+        new, nps = entry[0]
+        cx.require(T(new == b"N" + revs[i]), "new id not generated from the old id")
+        want = [mapped(p) for p in parents[i]]
+        cx.require(len(nps) == len(want) and all(len(a) == len(b) and T(a == b) for a, b in zip(nps, want)),
+                   "new parents %r, expected %r (every replaced / rewritten parent by its new id, the others unchanged)" %
+                   (list(nps), want))
+    if len(rewritten) >= 2:
+        cx.cover("chain_of_rewrites")
+    if nren == 2 and any(any(idx(p) == ren_idx[0] or idx(p) == ren_idx[1] for p in parents[i]) for i in ren_idx):
+        cx.cover("renamed_child_of_renamed")
+    if rewritten:
+        cx.cover("rewritten")
+    cx.observe("plan", sorted(rewritten))
+
+
 def obligations(tier):
     q = tier == "quick"
     p = dict(lrev=2, entries=2 if q else 3, parents=2, ltext=4 if q else 6)
@@ -188,4 +289,8 @@ def obligations(tier):
            bounds="<= %d revisions to rebase with 1..2 parents each; revisions and parents are symbolic ids (the solver "
                   "decides the shape: chains, diamonds inside the set, merges of a revision from outside), fixed common "
                   "ancestor and new base" % (3 if q else 4)),
+        Ob("transpose_plan", ob_transpose_plan, [(RB, dict(symdict=True))], dict(nrevs=3 if q else 4), to, 2 if q else 1,
+           ["rewritten", "chain_of_rewrites", "renamed_child_of_renamed"],
+           bounds="<= %d revisions with 1..2 parents each (symbolic ids, the solver decides the shape), 1..2 of them replaced, "
+                  "listed in either order" % (3 if q else 4)),
     ]
